@@ -562,4 +562,71 @@ theorem C07_class_body_counterexample :
     directRead cbT 4 3 = true ∧ isReadBeforeOverwriteB cbT 3 4 3 = true ∧ liveGenOK cbD cbT 4 3 = false ∧
     3 ∉ cbOUT (cbT.nodeAt 3) ∧ 3 ∉ cbIN (cbT.nodeAt 4) := by decide
 
+/-! ## The pinned tree, deviation (f): a sibling local function defined AFTER the running one
+
+    def f(a, b, c):
+        y = b
+        def g(p):
+            nonlocal y
+            y = tr(1, p)
+            r = h()            # h reads y
+            return r
+        def h():
+            return tr(2, y)
+        w = g(a)
+        return tr(0, w)
+
+This is the graph of the NESTED function `g` (function 9).  `reaching_fndefs` seeds a nested graph with the function definitions
+that reach its `def` statement; `h` (function 25) is defined later — though before `g` is called — so it is in no
+`DEFINED_FNS_IN` of `g`, and `y` is dead after `y = tr(1, p)` although the next statement's call reads it.  (control_flow keeps
+every `nonlocal` name in the loop / branch state regardless of liveness, so no conversion result is known to change.)
+(REAL data; variables 3 y, 5 p, 6 h, 7 r, 8 tr; nodes 10 args, 12 `nonlocal y`, 13 `y = tr(1, p)`, 19 `r = h()`, 23 return.) -/
+
+def odD : CfgData where
+  fnId := 9
+  graph := { nodes := [10, 12, 13, 19, 23], edges := [(10, 12), (12, 13), (13, 19), (19, 23)] }
+  entry := 10
+  exits := [23]
+  info := [
+    { id := 10, scope := some { read := [], modified := [], deleted := [], bound := [5], globals := [], nonlocals := [], params := [5], annotations := [] }, isForIter := false, forTargets := [], isFnDef := false, fnsIn := some [] },
+    { id := 12, scope := some { read := [3], modified := [], deleted := [], bound := [3], globals := [], nonlocals := [3], params := [], annotations := [] }, isForIter := false, forTargets := [], isFnDef := false, fnsIn := some [] },
+    { id := 13, scope := some { read := [5, 7], modified := [3], deleted := [], bound := [3], globals := [], nonlocals := [], params := [], annotations := [] }, isForIter := false, forTargets := [], isFnDef := false, fnsIn := some [] },
+    { id := 19, scope := some { read := [6], modified := [8], deleted := [], bound := [8], globals := [], nonlocals := [], params := [], annotations := [] }, isForIter := false, forTargets := [], isFnDef := false, fnsIn := some [] },
+    { id := 23, scope := some { read := [8], modified := [], deleted := [], bound := [], globals := [], nonlocals := [], params := [], annotations := [] }, isForIter := false, forTargets := [], isFnDef := false, fnsIn := some [] }]
+  fns := [
+    { id := 1, parent := 0, isLambda := false, read := [1, 2, 3, 4, 6, 7, 9], bound := [0, 1, 2, 3, 4, 5, 6, 9], nonlocals := [], globals := [] },
+    { id := 9, parent := 1, isLambda := false, read := [3, 5, 6, 7, 8], bound := [3, 5, 8], nonlocals := [3], globals := [] },
+    { id := 25, parent := 1, isLambda := false, read := [3, 7], bound := [], nonlocals := [], globals := [] }]
+def odV : List Nat := [10, 12, 13, 19, 23]
+def odIN : St Nat := solAt [(10, [3, 5, 6, 7]), (12, [3, 5, 6, 7]), (13, [5, 6, 7]), (19, [6]), (23, [8])]
+def odOUT : St Nat := solAt [(10, [3, 5, 6, 7]), (12, [5, 6, 7]), (13, [6]), (19, [8]), (23, [])]
+def odT : Trace :=
+  [{ node := 10, reads := [], writes := [5], dels := [], fwrites := [], creads := [] },
+   { node := 12, reads := [], writes := [], dels := [], fwrites := [], creads := [] },
+   { node := 13, reads := [5, 7], writes := [3], dels := [], fwrites := [], creads := [] },
+   { node := 19, reads := [6], writes := [8], dels := [], fwrites := [], creads := [(25, 3), (25, 7)] },
+   { node := 23, reads := [8], writes := [], dels := [], fwrites := [], creads := [] }]
+
+/-- a read, during the step, by a local function that is not nested in the analysed one (a sibling / outer function it calls) -/
+def outsideReads (D : CfgData) (T : Trace) (j v : Nat) : Bool :=
+  match T[j]? with
+  | some s => s.creads.any (fun c => c.2 == v && !nestedInAnalysed D (D.fns.length + 1) c.1 && !readerIsLambda D c.1 &&
+      (match D.fnOf c.1 with | some fi => fi.read.contains v && !fi.ownBound v | none => false))
+  | none => false
+
+/-- The closure clause for sibling / outer local functions is false of the tree as it is: all checkers accept the real data of
+`g`'s graph, the run is a path, `h` reads `y` at step 3 with no write since `y = tr(1, p)` (step 2) — `y` is not live there. -/
+theorem C07_outer_function_full_false :
+    ¬ (∀ (D : CfgData) (V : List Nat) (IN OUT : St Nat) (T : Trace) (i j v : Nat),
+        isFix (Graph.revEdges D.graph.edges) V (liveFlow D) OUT IN = true → isPathB D.graph.edges V T = true →
+        j < T.length → outsideReads D T j v = true → isReadBeforeOverwriteB T i j v = true →
+        v ∈ OUT (T.nodeAt i) ∧ v ∈ IN (T.nodeAt (i + 1))) := by
+  intro h
+  have := h odD odV odIN odOUT odT 2 3 3 (by decide) (by decide) (by decide) (by decide) (by decide)
+  revert this
+  decide
+
+example : closureReadCovered odD 19 25 3 = false ∧ readerOutsideNotSeeded odD 25 = true ∧ readerIsLambda odD 25 = false
+    ∧ nonlocalInReader odD 25 3 = false := by decide
+
 end Malt.Analysis.C07
